@@ -29,6 +29,10 @@ func zzText(i int, pfx string) string {
 		return t + " <U1 " + d + ">>\n."
 	case 8: // an explicitly, wrongly numbered ellipsis (warning)
 		return "S8F1\n<L <U1 " + d + "> ...[5] <L x ...[7]>>\n."
+	case 12: // a reply without direction (warning), e.g. behind its primary message
+		return "S1F2\n<U1 " + d + ">\n."
+	case 13: // a primary with W and an explicit direction
+		return "S1F1 W H->E\n<U1 " + d + ">\n."
 	case 10: // 34 wrongly numbered ellipses: 34 warnings from one message
 		t := "S8F3\n<L"
 		for i := 0; i < 34; i++ {
@@ -61,6 +65,14 @@ func zzSep(i int, pfx string) string {
 		return " // comment . S1F1\n"
 	case 6:
 		return "\n\n  "
+	case 8: // runs of blanks other than the four ASCII ones (one- and multi-byte)
+		return "\u00a0\u00a0"
+	case 9:
+		return "\n\u3000\u3000"
+	case 10:
+		return "\u2028\u2029"
+	case 11:
+		return "\v\u0085\f "
 	}
 	c := rt.Byte(pfx + "ws")
 	rt.Assume(rt.Or(rt.Or(c == ' ', c == '\t'), rt.Or(c == '\n', c == '\r')))
